@@ -323,3 +323,56 @@ func fieldIndex(s *types.Struct, name string) int {
 	}
 	return -1
 }
+
+// FuncByRole finds a function by its expected name, or — when it was renamed — by a role
+// predicate over the module functions of the package (exactly one match is required).
+func (w *World) FuncByRole(pkgRel, name string, role func(fn *ssa.Function) bool) *ssa.Function {
+	if f := w.FuncByName(pkgRel, name); f != nil && (role == nil || role(f)) {
+		return f
+	}
+	if role == nil {
+		return nil
+	}
+	p := w.Pkg(pkgRel)
+	var found []*ssa.Function
+	for _, fn := range w.ModFuncs {
+		if fn.Package() == p && fn.Parent() == nil && fn.Synthetic == "" && role(fn) {
+			found = append(found, fn)
+		}
+	}
+	if len(found) == 1 {
+		return found[0]
+	}
+	return nil
+}
+
+func sigHas(fn *ssa.Function, params []string, results []string) bool {
+	ps, rs := fn.Signature.Params(), fn.Signature.Results()
+	if ps.Len() != len(params) || rs.Len() != len(results) {
+		return false
+	}
+	for i, p := range params {
+		if !strings.HasSuffix(ps.At(i).Type().String(), p) {
+			return false
+		}
+	}
+	for i, r := range results {
+		if !strings.HasSuffix(rs.At(i).Type().String(), r) {
+			return false
+		}
+	}
+	return true
+}
+
+func recvIs(fn *ssa.Function, typeName string) bool {
+	r := fn.Signature.Recv()
+	if r == nil {
+		return typeName == ""
+	}
+	n := namedOf(r.Type())
+	return n != nil && n.Obj().Name() == typeName
+}
+
+func callsNamed(fn *ssa.Function, suffix string) bool {
+	return len(findCalls(fn, func(n string, _ *ssa.CallCommon) bool { return strings.HasSuffix(n, suffix) })) > 0
+}
